@@ -268,10 +268,20 @@ func (c *Ctx) liveSet(fi *load.FuncInfo, fn *gf.Fn, live types.Object) {
 				continue
 			}
 			cellWant := loopCell(rs)
+			right := false
 			if cellWant != nil && fn.Term(call.Args[0]).Key() == fn.Term(cellWant).Key() {
-				okPods = true
+				right = true
 			} else if v, ok := rs.Value.(*ast.Ident); ok && fn.Term(call.Args[0]).Key() == fn.Term(v).Key() {
-				okPods = true
+				right = true
+			}
+			// every iteration reaches the store: stopping at it, the loop head is not re-entered
+			if right {
+				_, an := c.Analysis(fi)
+				start := rs.Body.List[0]
+				aU := fn.FromUntil(start, an.StateBefore(start), as)
+				if head := loopHead(fn, rs); head != nil && !aU.BlockReached(head) {
+					okPods = true
+				}
 			}
 		}
 	}
